@@ -168,9 +168,8 @@ class _HyperVolume:
                 )
             else:
                 qArea[0] = 1
-                qArea[1 : dimIndex + 1] = [
-                    qArea[i] * -qCargo[i] for i in range(dimIndex)
-                ]
+                for i in range(dimIndex):
+                    qArea[i + 1] = qArea[i] * -qCargo[i]
             q.volume[dimIndex] = hvol
             if q.ignore >= dimIndex:
                 qArea[dimIndex] = qPrevDimIndex.area[dimIndex]
